@@ -2,7 +2,9 @@
 from .. import locks
 from .. import model as M
 from .. import paths
-from ..mirutil import site_key
+from ..mirutil import site_key, peel_refs
+from .. import tables
+from ..facts import op_local
 
 EXPLANATION = (
     "Decides three structural clauses: (1) every data record appended to the WAL is dominated by an append(BeginTx), "
@@ -21,6 +23,7 @@ def run(ctx):
     ctx.rule("C02.1", "WAL appends are bracketed BeginTx .. CommitTx under one uninterrupted WAL guard")
     ctx.rule("C02.2", "commit mutates pages / node table only after CommitTx is appended and fsynced")
     ctx.rule("C02.3", "replay keeps the CreateNode idempotence skip and has an explicit arm per WalRecord variant")
+    ctx.rule("C02.4", "log scanners discard the records of an unfinished transaction when the next BeginTx arrives")
 
     # ---- clause 1 ---------------------------------------------------------
     for fn in M.WAL_WRITERS:
@@ -116,3 +119,37 @@ def run(ctx):
         ctx.oblige(guarded, "C02.3", "replay:create-node-skip#%d" % c.ordinal,
                    "replay applies CreateNode without the idmap.lookup skip (re-replay after a crash duplicates or fails)", c.loc(),
                    sample={"apply": c.loc(), "lookups": [l.loc() for l in lookups]})
+
+    # ---- clause 4 ---------------------------------------------------------
+    # A crash inside commit leaves BeginTx + some records without CommitTx; later commits are appended behind them.
+    # Every scanner that groups records into transactions must drop the pending records at the next BeginTx, otherwise
+    # the aborted records are applied as part of the next committed transaction.
+    adt = ctx.adt(M.WALRECORD)
+    names = [v["name"] for v in adt["variants"]]
+    scanners = 0
+    for i, sb in sorted(F.bodies.items()):
+        if not i.startswith("nervusdb_storage::wal::") or sb.kind == "closure" or "::tests::" in i:
+            continue
+        sw = tables.enum_switch(sb, M.WALRECORD, F)
+        if not sw or names.index("BeginTx") not in sw[1] or names.index("CommitTx") not in sw[1]:
+            continue
+        pushes = [c for c in sb.calls() if c.name.endswith("Vec::<T, A>::push") and c.args and M.WALRECORD in sb.local_ty(peel_refs(sb, op_local(c.args[0])) or 0)]
+        if not pushes:
+            continue
+        scanners += 1
+        pend = {peel_refs(sb, op_local(c.args[0])) for c in pushes}
+        region = tables.dominated_region(sb, sw[1][names.index("BeginTx")], sw[0])
+        cleared = False
+        for c in sb.calls():
+            if c.bb in region and c.args and c.name.split("::")[-1] in ("clear", "take", "truncate", "drain") and peel_refs(sb, op_local(c.args[0])) in pend:
+                cleared = True
+        for x in region:
+            for st in sb.blocks[x]["s"]:
+                if st[0] == "a" and st[1][0] in pend and not st[1][1]:
+                    cleared = True
+        ctx.instance("C02.4", "%s: BeginTx arm resets the pending-record buffer=%s" % (i, cleared))
+        ctx.oblige(cleared, "C02.4", "%s:BeginTx-keeps-pending-records" % i,
+                   "the BeginTx arm does not discard records buffered from an earlier transaction that never committed (a crash in the middle of a "
+                   "commit): those records are replayed as part of the next committed transaction — recovery applies a non-prefix", sb.file,
+                   sample={"scanner": i})
+    ctx.floor("C02.4", "log scanners that group records into transactions", scanners, 2)
